@@ -31,3 +31,79 @@ package core
 //@   loop 0 invariant range: 0 <= $i && $i <= len(r.orderBy)
 //@   loop 0 decreases len(r.orderBy) - $i
 //@   nopanic own
+
+//@ const_global ErrDeadlineExceeded: ErrDeadlineExceeded != nil
+
+//@ func stop
+//@   pure
+//@   ensures val: result0 == false && result1 == nil
+
+// ---- C13: an error from the wrapped source or from the downstream callback reaches the caller of Iterate ----
+// srcErr is the error returned by the wrapped source's Iterate; calls/lastret trace the downstream callback.
+
+//@ func (*sorter).Iterate
+//@   modifies *
+//@   capture srcErr Iface = result 1 of call FlatRowSource.Iterate
+//@   capture timedOut Bool = result 0 of call TimeoutGuard.TimedOut
+//@   ensures src_err: srcErr != nil ==> result1 != nil
+//@   ensures row_err: calls(onRow) > old(calls(onRow)) && lastret(onRow, 1) != nil ==> result1 != nil
+//@   ensures timeout: timedOut ==> result1 != nil
+//@   loop 0 invariant prev_ok: calls(onRow) == old(calls(onRow)) || lastret(onRow, 1) == nil
+//@   loop 0 invariant not_timed_out: !timedOut
+//@   loop 0 invariant src_ok: srcErr == nil || (srcErr != nil && srcErr == err)
+
+//@ func (*limit).Iterate
+//@   modifies *
+//@   capture srcErr Iface = result 1 of call FlatRowSource.Iterate
+//@   ensures src_err: srcErr != nil ==> result1 != nil
+
+//@ func (*offset).Iterate
+//@   modifies *
+//@   capture srcErr Iface = result 1 of call FlatRowSource.Iterate
+//@   ensures src_err: srcErr != nil ==> result1 != nil
+
+//@ func (*rowFilter).Iterate
+//@   modifies *
+//@   capture srcErr Iface = result 1 of call RowSource.Iterate
+//@   ensures src_err: srcErr != nil ==> result1 != nil
+
+//@ func (*flatRowFilter).Iterate
+//@   modifies *
+//@   capture srcErr Iface = result 1 of call FlatRowSource.Iterate
+//@   ensures src_err: srcErr != nil ==> result1 != nil
+
+//@ func (*flatten).Iterate
+//@   modifies *
+//@   capture srcErr Iface = result 1 of call RowSource.Iterate
+//@   ensures src_err: srcErr != nil ==> result1 != nil
+
+// ---- C09: LIMIT n forwards exactly the first n rows, OFFSET m exactly the rows from index m on ----
+//@ func (*limit).Iterate$1
+//@   modifies *
+//@   ensures forward: old(idx) < old(l.limit) ==> calls(onRow) == old(calls(onRow)) + 1 && lastarg(onRow, 0) == row && result0 == lastret(onRow, 0) && result1 == lastret(onRow, 1)
+//@   ensures stop: old(idx) >= old(l.limit) ==> calls(onRow) == old(calls(onRow)) && result0 == false && result1 == nil
+//@   ensures count: idx == old(idx) + 1
+
+//@ func (*offset).Iterate$1
+//@   modifies *
+//@   ensures forward: old(idx) >= old(o.offset) ==> calls(onRow) == old(calls(onRow)) + 1 && lastarg(onRow, 0) == row && result0 == lastret(onRow, 0) && result1 == lastret(onRow, 1)
+//@   ensures skip: old(idx) < old(o.offset) ==> calls(onRow) == old(calls(onRow))
+//@   ensures count: idx == old(idx) + 1
+
+// ---- C08: a filter forwards a row iff Include kept it, with exactly what Include returned; Include's error stops the scan ----
+//@ func (*rowFilter).Iterate$2
+//@   modifies *
+//@   capture incKey Slice = result 0 of call dyn:Include
+//@   capture incVals Slice = result 1 of call dyn:Include
+//@   capture incErr Iface = result 2 of call dyn:Include
+//@   ensures include_err: incErr != nil ==> result0 == false && result1 != nil && calls(onRow) == old(calls(onRow))
+//@   ensures forward: incErr == nil && incKey != nil ==> calls(onRow) == old(calls(onRow)) + 1 && lastarg(onRow, 0) == incKey && lastarg(onRow, 1) == incVals && result0 == lastret(onRow, 0) && result1 == lastret(onRow, 1)
+//@   ensures skip: incErr == nil && incKey == nil ==> calls(onRow) == old(calls(onRow))
+
+//@ func (*flatRowFilter).Iterate$2
+//@   modifies *
+//@   capture incRow Int = result 0 of call dyn:Include
+//@   capture incErr Iface = result 1 of call dyn:Include
+//@   ensures include_err: incErr != nil ==> result0 == false && result1 != nil && calls(onRow) == old(calls(onRow))
+//@   ensures forward: incErr == nil && incRow != nil ==> calls(onRow) == old(calls(onRow)) + 1 && lastarg(onRow, 0) == incRow && result0 == lastret(onRow, 0) && result1 == lastret(onRow, 1)
+//@   ensures skip: incErr == nil && incRow == nil ==> calls(onRow) == old(calls(onRow))
